@@ -21,6 +21,8 @@ RULE = ("one run = one generated proper table MDP with uniform action sets x (th
 REAL = ["msdm.algorithms.rmax.RMAX (unmodified)", "msdm.core.distributions sampling path", "TabularMarkovDecisionProcess state/action lists and reward matrix"]
 STUB = ["table MDP behind msdm's model interface", "random.Random streams (SimRandom)", "empirical model rebuilt from the recorded history"]
 ASSUMPTIONS = ["proper MDPs, uniform action sets, discount < 1, <= 6 non-absorbing states", "rmax configured as the maximum of the model's reward tensor (the learner asserts it)"]
+from sim.models import SEAM_RANGES  # noqa: E402
+ASSUMPTIONS = ASSUMPTIONS + [SEAM_RANGES]
 
 
 def _size(rng):
